@@ -62,6 +62,17 @@ Theorem C14_history_from_new : forall os, pre_hist tree_new os ->
   sim_hist tree_new os /\ exists t' outs, run tree_new os = Ok (t', outs) /\ WF t' /\ length outs = length os.
 Proof. intros os P. exact (history os tree_new [] tree_new_WF P). Qed.
 
+(* the same against the reference model run on its own (`spec_run`, started from abs t, never looking at the concrete
+   state again except for the ids the allocator hands out, `run_keys`), with the precondition judged on the reference
+   model along its own run: the final states agree and every output is the reference model's output *)
+Theorem C14_history_spec : forall os t, WF t -> spec_pre_run (abs t) os (run_keys t os) ->
+  exists t' outs, run t os = Ok (t', outs) /\ WF t' /\
+                  spec_equiv (abs t') (fst (spec_run (abs t) os (run_keys t os))) /\
+                  outs = snd (spec_run (abs t) os (run_keys t os)).
+Proof.
+  intros os t W P. exact (history_spec os t (abs t) [] W (spec_equiv_refl _) (sm_keys_NoDup _) P).
+Qed.
+
 (* ---- what the accessors show in a WF state is the forest: children / child_count / parent / child_at_index /
    total_node_count are the specification's child lists, derived parent and live count *)
 Theorem C14_observations : forall t k, WF t -> sm_get (t_nodes t) k <> None ->
@@ -154,6 +165,7 @@ Print Assumptions C14_WF_init.
 Print Assumptions C14_refines.
 Print Assumptions C14_history.
 Print Assumptions C14_history_from_new.
+Print Assumptions C14_history_spec.
 Print Assumptions C14_observations.
 Print Assumptions C14_forest.
 Print Assumptions C14_index_errors.
